@@ -24,7 +24,18 @@ def _alarm(*_):
 
 signal.signal(signal.SIGALRM, _alarm)
 
-CONFIGS = [('polish', 1, ()), ('polish', 0, ((0, 0, 1), (1, 0, 2))), ('standard', 1, ()), ('standard', 0, ((0, 0, 1), (1, 0, 2)))]
+# (notation, auto_preds, declared predicates, in-place replacement applied to the store before parsing)
+CONFIGS = [('polish', 1, (), None), ('polish', 0, ((0, 0, 1), (1, 0, 2)), None), ('standard', 1, (), None),
+           ('standard', 0, ((0, 0, 1), (1, 0, 2)), None),
+           ('polish', 1, ((0, 0, 1), (1, 0, 2)), (0, (0, 0, 2))), ('standard', 0, ((0, 0, 1), (1, 0, 1)), (1, (1, 0, 3)))]
+
+
+def make_store(preds, repl):
+    st = Predicates(preds)
+    if repl is not None:
+        i, p = repl
+        st[i] = p                 # replace a declaration in place (same symbol, other arity)
+    return st
 
 
 def parse(p, s):
@@ -51,13 +62,16 @@ def main(strings, out, agg, shard, nshards):
     strs = [json.loads(l) for k, l in enumerate(open(strings)) if k % nshards == shard]
     counts = {'aggregated_parse_errors': 0, 'parsed_ok': 0, 'total': 0}
     with open(out, 'w') as o:
-        for notation, auto, preds in CONFIGS:
-            live = Parser(notation, Predicates(preds), auto_preds=bool(auto))
+        for notation, auto, preds, repl in CONFIGS:
+            live = Parser(notation, make_store(preds, repl), auto_preds=bool(auto))
             for n, c in enumerate(strs):
                 before = store(live)
-                fresh = Parser(notation, Predicates(tuple(x) for x in before), auto_preds=bool(auto))
                 o1, s1 = parse(live, c['str'])
-                o2, s2 = parse(fresh, c['str'])
+                try:
+                    fresh = Parser(notation, Predicates(tuple(x) for x in before), auto_preds=bool(auto))
+                    o2, s2 = parse(fresh, c['str'])
+                except Exception as e:       # the live store cannot even be re-declared: recorded, judged by the spec
+                    o2, s2 = f'StoreRejected:{type(e).__name__}', []
                 after = store(live)
                 counts['total'] += 1
                 if o1 == 'ParseError' and o2 == 'ParseError' and after == before:
@@ -70,7 +84,7 @@ def main(strings, out, agg, shard, nshards):
                                     'fresh_out': o2, 'fresh_sent': s2}, separators=(',', ':')) + '\n')
                 # keep the auto store from growing without bound: restart the live parser now and then
                 if auto and len(after) > 6:
-                    live = Parser(notation, Predicates(preds), auto_preds=True)
+                    live = Parser(notation, make_store(preds, repl), auto_preds=True)
     json.dump(counts, open(agg, 'w'))
 
 
